@@ -197,7 +197,7 @@ class ExprTr:
                 and not node.keywords:
             ty = ast.unparse(node.args[0])
             c, s = self.tr(node.func.value)
-            if ty in ("np.int32", "np.int64", "int", "np.intp"):
+            if ty in ("np.int32", "np.int64", "int", "np.intp", "np.uint16", "np.uint32", "np.uint8"):
                 return (c, "Z") if s == "Z" else (f"(Qtrunc {to_q(c, s)})", "Z")
             if ty in ("np.float32", "np.float64", "float"):
                 return (to_q(c, s), "Q")
